@@ -442,7 +442,9 @@ fn lex_block_comment(l: &mut Lexer<'_>, index: usize) -> Option<CommentedTokenTr
     let mut unclosed_indices = vec![index];
 
     let unclosed_multiline_comment = |l: &Lexer<'_>, unclosed_indices: Vec<_>| {
-        let span = span(l, *unclosed_indices.last().unwrap(), l.src.text.len() - 1);
+        // The end of the source is always a char boundary; `len() - 1` is not if the source ends
+        // with a multi-byte character.
+        let span = span(l, *unclosed_indices.last().unwrap(), l.src.text.len());
         let kind = LexErrorKind::UnclosedMultilineComment { unclosed_indices };
         error(l.handler, LexError { kind, span });
         None
@@ -586,22 +588,24 @@ fn lex_char(
         let mut string = String::new();
         string.push(parsed);
         string.push(escape(l, next_char)?);
-        loop {
-            let (_, next_char) = next(l)?;
+        let close_quote_index = loop {
+            let (close_index, next_char) = next(l)?;
             if is_quote(next_char) {
-                break;
+                break close_index;
             }
             string.push(next_char);
-        }
+        };
 
-        // Emit the expected closing quote error.
+        // Emit the expected closing quote error. The span ends right after the closing quote;
+        // it must be computed from source positions, not from the length of the parsed string,
+        // which differs from the source length for escapes and multi-byte characters.
         error(
             l.handler,
             LexError {
                 kind: LexErrorKind::ExpectedCloseQuote {
                     position: next_index,
                 },
-                span: span(l, next_index, next_index + string.len()),
+                span: span(l, next_index, close_quote_index + '\''.len_utf8()),
             },
         );
 
@@ -1116,6 +1120,22 @@ mod tests {
             })))
         );
         assert_eq!(tts.next(), None);
+    }
+
+    #[test]
+    fn lex_error_spans_with_multibyte_chars() {
+        // These used to panic while constructing the error spans.
+        for input in ["/*\u{e9}", "a /* b \u{1f600}", "'\u{e9}a'", "'\\n\u{2135}b'"] {
+            let handler = Handler::default();
+            let _ = lex_commented(&handler, input.into(), 0, input.len(), &None);
+            let (errors, _, _) = handler.consume();
+            assert!(!errors.is_empty(), "expected a lex error for {input:?}");
+            for err in errors {
+                use sway_types::Spanned;
+                let span = err.span();
+                assert!(input.get(span.start()..span.end()).is_some());
+            }
+        }
     }
 
     use super::is_valid_identifier_or_path as valid;
